@@ -20,6 +20,8 @@ type Op struct {
 	Desc    refmodel.Op
 	Request []byte
 	Suffix  string
+	Forge   string // forgery class ("" = genuine)
+	Dup     bool   // duplicate create / byte-identical replay
 }
 
 // Anchored is an operation placed at coordinates.
@@ -185,7 +187,7 @@ func DupCreateOtherDelta(orig *Op, name string, code uint64) *Op {
 	d.Delta = refmodel.DeltaMismatch
 	d.Markers, d.Removes = nil, nil
 	d.NextUpdate = nextU
-	return &Op{Desc: d, Request: asm.BytesOf(req), Suffix: orig.Suffix}
+	return &Op{Desc: d, Request: asm.BytesOf(req), Suffix: orig.Suffix, Dup: true}
 }
 
 // SignedSpec describes an update, recover or deactivate.
@@ -325,7 +327,7 @@ func NewSigned(s SignedSpec) *Op {
 	if s.Opt.Forge != ForgeNone {
 		d.Name = fmt.Sprintf("%s[%s]", s.Name, s.Opt.Forge)
 	}
-	return &Op{Desc: d, Request: asm.BytesOf(req), Suffix: s.Suffix}
+	return &Op{Desc: d, Request: asm.BytesOf(req), Suffix: s.Suffix, Forge: s.Opt.Forge}
 }
 
 // At places an operation at coordinates. ref is the canonical reference ("" = unpublished).
